@@ -116,10 +116,9 @@ func vfFamAViewEq(a, b vfFamAView) bool {
 		vfFamADescEq(a.PR, b.PR) && vfFamADescEq(a.CR, b.CR)
 }
 
-// vfFamAEdge is the transition table.  strict=true lists only the edges whose acceptance the
-// properties may demand (C02: own-side rollback); strict=false is the permissive union of
-// JSEP (RFC 8829 3.2, 4.1.10.2, 5.7) and W3C webrtc-pc 4.4.1.5/4.4.1.6 used to judge a call
-// that pion accepted.
+// vfFamAEdge is the transition table: the permissive union of JSEP (RFC 8829 3.2, 4.1.10.2,
+// 5.7) and W3C webrtc-pc 4.4.1.5/4.4.1.6, used to judge a call that pion accepted.  (The
+// rollbacks whose acceptance C02 demands are the narrower set vfFamAMustRollback.)
 func vfFamAEdge(cur SignalingState, local bool, typ SDPType) (SignalingState, bool) {
 	if typ == SDPTypeRollback {
 		// JSEP: rollback is possible from any state except stable, through either call
@@ -713,6 +712,13 @@ func (s *vfFamASim) note(op vfFamAOp) {
 			s.ansReady[x] = true
 		}
 	case vfFamAKSetLocal:
+		if op.T == vfFamATRollback && op.Bad == 0 {
+			if s.rollbackWorks && vfFamAMustRollback(s.st[x], true) {
+				s.st[x] = SignalingStateStable
+				s.ansReady[x] = false
+			}
+			return
+		}
 		if op.Bad != 0 || op.Src%4 > 1 {
 			return
 		}
@@ -729,13 +735,15 @@ func (s *vfFamASim) note(op vfFamAOp) {
 			if s.st[x] == SignalingStateHaveRemoteOffer && s.ansReady[x] {
 				s.st[x] = SignalingStateHaveLocalPranswer
 			}
-		case vfFamATRollback:
-			if s.rollbackWorks && vfFamAMustRollback(s.st[x], true) {
+		}
+	case vfFamAKSetRemote:
+		if op.T == vfFamATRollback && op.Bad == 0 {
+			if s.rollbackWorks && vfFamAMustRollback(s.st[x], false) {
 				s.st[x] = SignalingStateStable
 				s.ansReady[x] = false
 			}
+			return
 		}
-	case vfFamAKSetRemote:
 		if op.Bad != 0 || op.Src%4 != 0 {
 			if op.Bad == 0 && op.Src%4 == 1 && op.T == vfFamATOffer && s.st[x] == SignalingStateStable {
 				s.st[x] = SignalingStateHaveRemoteOffer // foreign offer
@@ -758,11 +766,6 @@ func (s *vfFamASim) note(op vfFamAOp) {
 		case vfFamATPranswer:
 			if s.st[x] == SignalingStateHaveLocalOffer && s.ansReady[y] {
 				s.st[x] = SignalingStateHaveRemotePranswer
-			}
-		case vfFamATRollback:
-			if s.rollbackWorks && vfFamAMustRollback(s.st[x], false) {
-				s.st[x] = SignalingStateStable
-				s.ansReady[x] = false
 			}
 		}
 	}
@@ -830,6 +833,7 @@ func (s *vfFamASim) progress(r *rapid.T) (vfFamAOp, bool) {
 
 type vfFamAGenOpts struct {
 	MaxLen   int
+	Rollback int   // percent of steps that are a rollback aimed at the predicted state (C02); 0 = only the random ones
 	BadProb  int   // percent of set-ops that carry an invalid class (C03); 0 for C01
 	BadAllow []int // invalid-class indices that may be drawn
 	Invalid  bool  // allow the out-of-enum description type
@@ -838,7 +842,7 @@ type vfFamAGenOpts struct {
 func vfFamAGen(r *rapid.T, o vfFamAGenOpts) vfFamACase {
 	c := vfFamACase{InitA: rapid.IntRange(0, 3).Draw(r, "initA"), InitB: rapid.IntRange(0, 3).Draw(r, "initB")}
 	n := rapid.IntRange(1, o.MaxLen).Draw(r, "n")
-	sim := &vfFamASim{rollbackWorks: rapid.Bool().Draw(r, "simRollbackWorks")}
+	sim := &vfFamASim{st: [2]SignalingState{SignalingStateStable, SignalingStateStable}, rollbackWorks: rapid.Bool().Draw(r, "simRollbackWorks")}
 	kinds := []string{vfFamAKOffer, vfFamAKAnswer, vfFamAKSetLocal, vfFamAKSetLocal, vfFamAKSetLocal, vfFamAKSetLocal,
 		vfFamAKSetRemote, vfFamAKSetRemote, vfFamAKSetRemote, vfFamAKSetRemote, vfFamAKAddTr, vfFamAKAddDC}
 	types := []int{vfFamATOffer, vfFamATOffer, vfFamATOffer, vfFamATPranswer, vfFamATPranswer, vfFamATAnswer, vfFamATAnswer, vfFamATAnswer, vfFamATRollback, vfFamATRollback}
@@ -848,6 +852,17 @@ func vfFamAGen(r *rapid.T, o vfFamAGenOpts) vfFamACase {
 		ok := false
 		if rapid.IntRange(0, 99).Draw(r, "mode") < 55 {
 			op, ok = sim.progress(r)
+		}
+		if !ok && o.Rollback > 0 && rapid.IntRange(0, 99).Draw(r, "rb") < o.Rollback {
+			x := rapid.IntRange(0, 1).Draw(r, "x")
+			if sim.st[x] == SignalingStateStable && sim.st[1-x] != SignalingStateStable && rapid.IntRange(0, 3).Draw(r, "rbOther") != 0 {
+				x = 1 - x
+			}
+			op = vfFamAOp{K: vfFamAKSetLocal, X: x, T: vfFamATRollback, Src: rapid.IntRange(0, 2).Draw(r, "rbText") + 4*rapid.IntRange(0, 2).Draw(r, "variant")}
+			if vfFamAMustRollback(sim.st[x], false) != (rapid.IntRange(0, 4).Draw(r, "rbCross") == 0) {
+				op.K = vfFamAKSetRemote
+			}
+			ok = true
 		}
 		if !ok {
 			op = vfFamAOp{K: rapid.SampledFrom(kinds).Draw(r, "k"), X: rapid.IntRange(0, 1).Draw(r, "x")}
